@@ -86,8 +86,12 @@ func keyBytes(a int) []byte {
 	return b
 }
 
+// hashSalt separates the side-chain hashes of one history op from those of every other op, so that all
+// histories can share one chain store and still start from an empty index
+var hashSalt string
+
 func hashOf(id int) common.Uint256 {
-	return common.Uint256(sha256.Sum256([]byte("sc" + strconv.Itoa(id))))
+	return common.Uint256(sha256.Sum256([]byte("sc" + hashSalt + strconv.Itoa(id))))
 }
 
 // ---------------------------------------------------------------- ledger stubs
@@ -372,7 +376,9 @@ type realStore struct {
 	ffl *blockchain.ChainStoreFFLDB
 }
 
-func (s *realStore) IsSidechainTxHashDuplicate(h common.Uint256) bool { return s.ffl.IsTx3Exist(&h) }
+func (s *realStore) IsSidechainTxHashDuplicate(h common.Uint256) bool {
+	return s.IChainStore.IsSidechainTxHashDuplicate(h) // the real ChainStore method (→ ffldb IsTx3Exist)
+}
 
 var flowOnChain map[int]bool // oracle bookkeeping: hashes recorded by blocks still connected
 
@@ -456,18 +462,37 @@ func setStr(f func(int) bool) string {
 	return strings.Join(xs, ",")
 }
 
+var (
+	flowStore blockchain.IChainStore
+	flowDir   string
+	flowCount int
+)
+
+func closeFlowStore() {
+	if flowStore != nil {
+		flowStore.Close()
+		os.RemoveAll(flowDir)
+	}
+}
+
 func execFlow(t []string) string {
-	dir, err := os.MkdirTemp("", "c33-tx3-")
-	if err != nil {
-		panic("harness: " + err.Error())
+	if flowStore == nil {
+		dir, err := os.MkdirTemp("", "c33-tx3-")
+		if err != nil {
+			panic("harness: " + err.Error())
+		}
+		// the real chain store (leveldb + ffldb): IsSidechainTxHashDuplicate below is ChainStore's own
+		cs, err := blockchain.NewChainStore(dir, &config.DefaultParams)
+		if err != nil {
+			panic("harness: open chain store: " + err.Error())
+		}
+		flowStore, flowDir = cs, dir
 	}
-	defer os.RemoveAll(dir)
-	st, err := blockchain.NewChainStoreFFLDB(dir, &config.DefaultParams)
-	if err != nil {
-		panic("harness: open ffldb: " + err.Error())
-	}
-	ffl := st.(*blockchain.ChainStoreFFLDB)
-	defer ffl.Close()
+	cs := flowStore
+	flowCount++
+	hashSalt = "flow" + strconv.Itoa(flowCount) + ":"
+	defer func() { hashSalt = "" }()
+	ffl := cs.GetFFLDB().(*blockchain.ChainStoreFFLDB)
 	var stack []*types.Block
 	var stackW [][]*wtx
 	for _, g := range strings.Split(strings.Join(t[1:], " "), " / ") {
@@ -513,8 +538,8 @@ func execFlow(t []string) string {
 			}
 		}
 	}
-	rs := &realStore{ffl: ffl}
-	return fmt.Sprintf("dup=%s v1=%s v0=%s", setStr(func(x int) bool { return ffl.IsTx3Exist(ptr(hashOf(x))) }),
+	rs := &realStore{IChainStore: cs, ffl: ffl}
+	return fmt.Sprintf("dup=%s v1=%s v0=%s", setStr(func(x int) bool { return cs.IsSidechainTxHashDuplicate(hashOf(x)) }),
 		setStr(func(x int) bool { return probe(rs, 1, x) }), setStr(func(x int) bool { return probe(rs, 0, x) }))
 }
 
@@ -744,5 +769,6 @@ func bucket(t []string, out string) string {
 }
 
 func main() {
+	defer closeFlowStore()
 	hx.Main(&hx.Prop{Name: "C33", Gen: gen, Exec: exec, Oracle: oracle, Nontrivial: nontrivial, Bucket: bucket, Stateful: false})
 }
